@@ -6,6 +6,7 @@ let () =
   let sub = if Array.length Sys.argv > 1 then Sys.argv.(1) else "" in
   let handler = match sub with
     | "runner" -> H_runner.runner_case
+    | "mocks" -> H_mocks.mocks_case
     | _ -> failwith ("unknown model " ^ sub) in
   (try
     while true do
